@@ -2083,8 +2083,9 @@ GRend(int32 grid)
                     img_ptr->attr_modified = FALSE;
                 } /* end if */
 
-                /* Check if the RI is already in the GR, add it if not */
-                if (Vinqtagref(GroupID, RI_TAG, (int32)img_ptr->ri_ref) == FALSE)
+                /* Check if the RI is already in the GR, add it if not.  An old-style image (found through its RIG
+                   only) that was not touched in this session has no RI vgroup: there is nothing to add for it */
+                if (img_ptr->ri_ref != DFREF_WILDCARD && Vinqtagref(GroupID, RI_TAG, (int32)img_ptr->ri_ref) == FALSE)
                     if (Vaddtagref(GroupID, RI_TAG, (int32)img_ptr->ri_ref) == FAIL)
                         HGOTO_ERROR(DFE_CANTADDELEM, FAIL);
 
